@@ -185,6 +185,12 @@ def verify_class(P, g, key, info, cls, rep_rules_clean):
     fn = info["fn"]
     parts = cls.split(":")
     c = parts[0]
+    if c == "D-SOME":
+        import kreach
+        dec, may = kreach.option_may_be_none(P, fn, info["block"])
+        if dec and not may:
+            return True, "path exploration: on every path that reaches this expect/unwrap the Option is known to be Some"
+        return False, "the Option can reach this expect/unwrap as None (or its state is unknown) on some path"
     if c == "G-CHILD":
         rule, k = parts[1], int(parts[2])
         ch = g.children(rule)
